@@ -402,6 +402,35 @@ def check_relabelling(inp, out, what):
     return res
 
 
+ROW_LABELS = ["permuted", "reversed", "shifted", "gapped", "text", "float", "range"]
+
+
+def row_labels(spec, n):
+    """the index of a DataFrame of n rows: what pandas leaves behind after rows were reordered / selected, or what a user set"""
+    import random as _r
+
+    import pandas as pd
+    r = _r.Random(spec["seed"])
+    kind = spec["kind"]
+    if kind == "permuted":            # df.iloc[perm] / df.sample(frac=1) / df.sort_values(...)
+        lab = list(range(n)); r.shuffle(lab)
+        if n > 1 and lab == list(range(n)):
+            lab[0], lab[-1] = lab[-1], lab[0]
+        return pd.Index(lab)
+    if kind == "reversed":            # df[::-1]
+        return pd.Index(list(range(n - 1, -1, -1)))
+    if kind == "shifted":             # a slice of a longer frame
+        k = r.randint(1, 50)
+        return pd.RangeIndex(k, k + n)
+    if kind == "gapped":              # a boolean filter of a longer frame
+        return pd.Index(sorted(r.sample(range(3 * n + 2), n)))
+    if kind == "text":
+        return pd.Index([f"n{r.randrange(10**4)}_{i}" for i in range(n)])
+    if kind == "float":
+        return pd.Index([i + 0.5 for i in range(n)])
+    return pd.RangeIndex(n)
+
+
 class SortSuite(Suite):
     name = "c05.sort"
 
@@ -472,6 +501,19 @@ class SortSuite(Suite):
             c["class"] = f"derived/{src}/" + "+".join(o.split("-")[0] for o in ops if o not in H_COPY + ["addcol", "dropcol"]) + \
                 ("+copy" if any(o in H_COPY for o in ops) else "")
             out.append(c)
+        # the ROW LABELS of the table handed over: a table whose rows were put into another order with pandas (iloc / sample / sort_values /
+        # a boolean filter) keeps its old labels; frames also come with labels starting elsewhere, with text or float labels.  The table is
+        # the same table: "root anywhere in the table", every numbering
+        j = 0
+        for rep in range(2 if quick else 8):
+            for lab in ROW_LABELS:
+                n = rng.choice([2, 3, 5, 8, 13] if quick else [2, 3, 5, 8, 13, 30, 70])
+                c = sort_case(rng, n, gen.pick_shape(rng, j), "table", span=ID_SPANS[j % 3] if j % 2 else None,
+                              rows=["shuffled", "by-id", "by-id-desc"][j % 3])
+                c["labels"] = {"kind": lab, "seed": rng.randrange(10**6)}
+                c["class"] = f"row-labels/{lab}"
+                out.append(c)
+                j += 1
         return out
 
     def run(self, case):
@@ -496,6 +538,8 @@ class SortSuite(Suite):
         xcols = case.get("xcols") or []
         for c in xcols:  # extra columns of other kinds, with missing entries
             df[c["name"]] = build_xcol(c["kind"], c["values"])
+        if case.get("labels"):
+            df.index = row_labels(case["labels"], n)
         before = df.copy()
         d2 = sort_nodes(df)
         res["df_input_unchanged"] = bool(df.equals(before))
